@@ -436,24 +436,14 @@ func VerifMerge() {
 		// the two recorded classes are judged on paths of their own (section 1, 2), so that they hide
 		// nothing else: section 0 checks every other obligation on the same descriptors
 		section := 0
-		anyProbe := false
-		for _, s := range svcs {
-			anyProbe = anyProbe || s.probe
-		}
 		if vNodeInSomeOnly(svcs) && verifChoice("section.node", 2) == 1 {
 			section = 1
 			verifKnown("C03-node-field-in-some-services-only", true)
-		} else if anyProbe && verifChoice("section.probe", 2) == 1 {
-			section = 2
-			verifKnown("C03-node-shaped-root-field", true)
 		}
 		if section != 0 {
 			for _, s := range svcs {
 				if section == 1 && s.node {
 					verifAssert(sc.Types["Query"].Fields.ForName("node") != nil, "the node entry point of a service is in the gateway schema")
-				}
-				if section == 2 && s.probe {
-					verifAssert(sc.Types["Query"].Fields.ForName("lookup") != nil, "every root field of every service is in the gateway schema (lookup)")
 				}
 			}
 			verifReach("merged schema checked")
@@ -462,6 +452,9 @@ func VerifMerge() {
 		for _, s := range svcs {
 			t := s.t
 			verifAssert(sc.Types["Query"].Fields.ForName("q"+verifItoa(s.idx)) != nil, "every root field of every service is in the gateway schema")
+			if s.probe {
+				verifAssert(sc.Types["Query"].Fields.ForName("lookup") != nil, "every root field of every service is in the gateway schema (lookup)")
+			}
 			if s.probe2 {
 				verifAssert(sc.Types["Query"].Fields.ForName("revision") != nil, "every root field of every service is in the gateway schema (revision)")
 			}
@@ -570,6 +563,10 @@ func VerifMerge() {
 	for _, s := range svcs {
 		u, ok := tm.Get("Query", "q"+verifItoa(s.idx))
 		verifAssert(ok && u == "svc"+verifItoa(s.idx), "every root field is routed to the service that declared it")
+		if s.probe {
+			ul, okl := tm.Get("Query", "lookup")
+			verifAssert(okl && ul == "svc"+verifItoa(s.idx), "every root field is routed to the service that declared it (lookup)")
+		}
 		if s.dup {
 			ud, okd := tm.Get("Query", "du__p")
 			verifAssert(okd && ud == "svc"+verifItoa(s.idx), "every root field is routed to the service that declared it (du__p)")
@@ -641,7 +638,7 @@ func vKnown05(svcs []vService, conflict string) {
 	for _, s := range svcs {
 		probe = probe || s.probe
 	}
-	verifKnown("C05-node-shaped-root-field", probe)
+	_ = probe
 	declaring := 0
 	for _, s := range svcs {
 		if s.t.kind == "object" || s.t.kind == "input" {
@@ -696,7 +693,7 @@ func vKnown03(svcs []vService) {
 	for _, s := range svcs {
 		probe = probe || s.probe
 	}
-	verifKnown("C03-node-shaped-root-field", probe)
+	_ = probe
 }
 
 func vKnown04(svcs []vService) {
@@ -704,5 +701,5 @@ func vKnown04(svcs []vService) {
 	for _, s := range svcs {
 		probe = probe || s.probe
 	}
-	verifKnown("C04-node-shaped-root-field", probe)
+	_ = probe
 }
